@@ -246,7 +246,7 @@ def main(run):
     run.rule = ("exhaustive: every draw combination (cut points, per-locus swap masks, swap indices, sample pairs, "
                 "inversion indices) for lengths 2..4 (quick) / 2..5 (thorough), equal and unequal lengths, every pair of "
                 "permutations of size <= 3 (quick) / <= 4 (thorough) plus identity x all permutations one size up; "
-                "random: lengths up to 30 with seeded draws (plus a few individuals of length 65, 129, 200/300 per operator), "
+                "random: lengths up to 30 with seeded draws (plus a few individuals of length 65, 129, 200 per operator), "
                 "indpb in {0, 1, dyadics, random floats}, scalar and per-gene "
                 "bounds incl. low = up and negative, list / array.array / numpy (element-wise operators only) individuals; "
                 "error branches (sizes 0, 1, short bound sequences) and non-permutation inputs of the permutation "
@@ -833,7 +833,9 @@ def main(run):
             mut_case(op, rng.choice(kinds_elem), p, seed=seed, indpb=rand_pb(), low=low, up=up)
 
     # ---- long individuals (paths that depend on the size; cheap: a handful per operator)
-    for n in (65, 129, run.scale(200, 300)):
+    # (permutation genes stay below 257: CPython shares small int objects, and the gene-identity oracle for list
+    #  individuals compares id() multisets, which PMX/OX only keep for shared ints)
+    for n in (65, 129, 200):
         for rep in range(run.scale(1, 4)):
             seed = rng.randrange(10 ** 9)
             q1, q2 = list(range(n)), list(range(n))
